@@ -847,3 +847,231 @@ Proof.
   - cbn [append]. rewrite Ucell_inert by reflexivity. now rewrite IH.
   - cbn [append]. rewrite Ucell_inert by reflexivity. now rewrite IH.
 Qed.
+
+Lemma pass2 : forall ws, wf_written ws = true -> Usurf (render_with wtext1 ws) = render_with wtext2 ws.
+Proof.
+  induction ws as [|[g w] r IH]; intros Hwf; [reflexivity|].
+  cbn [wf_written] in Hwf. apply andb_prop in Hwf. destruct Hwf as [Hwf Hr].
+  apply andb_prop in Hwf. destruct Hwf as [Hw Hsep]. cbn [render_with].
+  rewrite (inert_copy Usurf _ Usurf_inert (blanks g) _ (blanks_forall _ g eq_refl)). f_equal.
+  specialize (IH Hr).
+  destruct w as [neg plus ds sub|g2 ds|g2| | |]; cbn [wtext wtext1 wtext2].
+  - destruct (wlit_text_lit neg plus ds sub Hw) as [Hf _].
+    rewrite (inert_copy Usurf _ Usurf_inert _ _ (str_forall_impl lit_char _ _ not_hash_lit Hf)). now rewrite IH.
+  - cbn [wf_tok] in Hw. destruct (digits_ok_forall ds Hw) as [Fd Nd].
+    rewrite (inert_copy Usurf _ Usurf_inert (" ^(" ++ ds ++ ")")); [now rewrite IH|].
+    cbn [append str_forall is_c Ascii.eqb Bool.eqb andb negb]. rewrite str_forall_app.
+    rewrite (str_forall_impl is_digit _ ds (fun c Hc => not_hash_lit c (digit_lit c Hc)) Fd). reflexivity.
+  - cbn [append]. rewrite Usurf_cons. cbn [is_c Ascii.eqb Bool.eqb andb]. rewrite str_app_assoc, skip_blanks_blanks.
+    cbn [append skip_blanks is_blank Ascii.eqb Bool.eqb andb starts_with_char tail_str]. now rewrite IH.
+  - cbn [append]. rewrite Usurf_inert by reflexivity. now rewrite IH.
+  - cbn [append]. rewrite Usurf_inert by reflexivity. now rewrite IH.
+  - cbn [append]. rewrite Usurf_inert by reflexivity. now rewrite IH.
+Qed.
+
+Lemma render2_items ws : render_with wtext2 ws = irender (map conv ws).
+Proof.
+  induction ws as [|[g w] r IH]; [reflexivity|]. cbn [render_with map conv fst snd irender]. rewrite IH.
+  destruct w; cbn [is_hash wtext2 watom atext wtext]; try reflexivity.
+  - cbn [append]. now rewrite blanks_snoc.
+  - cbn [append]. now rewrite blanks_snoc.
+Qed.
+
+Lemma conv_ok ws : wf_written ws = true -> all_ok (map conv ws).
+Proof.
+  induction ws as [|[g w] r IH]; intros Hwf; [constructor|].
+  cbn [wf_written] in Hwf. apply andb_prop in Hwf. destruct Hwf as [Hwf Hr].
+  apply andb_prop in Hwf. destruct Hwf as [Hw _]. constructor; [|now apply IH].
+  cbn [conv snd]. destruct w as [neg plus ds sub|g2 ds|g2| | |]; cbn [watom atom_ok]; auto.
+  - exact (wlit_text_lit neg plus ds sub Hw).
+  - exact (digits_ok_forall ds Hw).
+Qed.
+
+(* ---- the first strip, on written forms ---- *)
+Lemma render_trail ws trail : render ws trail = render ws 0 ++ blanks trail.
+Proof. induction ws as [|[g w] r IH]; cbn; [reflexivity|]. now rewrite IH, !str_app_assoc. Qed.
+
+Lemma all_blank_blanks t : all_blank (blanks t) = true.
+Proof. induction t; cbn; auto. Qed.
+
+Lemma rstrip_all_blank s : all_blank s = true -> rstrip s = "".
+Proof. destruct s; intros H; [reflexivity|]. cbn [rstrip]. now rewrite H. Qed.
+
+Lemma all_blank_app s t : all_blank s = false -> all_blank (s ++ t) = false.
+Proof.
+  induction s as [|c s IH]; intros H; [discriminate|]. cbn in *. destruct (is_blank c); [|reflexivity].
+  cbn in *. now apply IH.
+Qed.
+
+Lemma rstrip_blanks X t : lnb X = true -> rstrip (X ++ blanks t) = X.
+Proof.
+  induction X as [|c r IH]; intros H.
+  - cbn [append]. apply rstrip_all_blank, all_blank_blanks.
+  - cbn [append rstrip].
+    change (String c (r ++ blanks t)) with (String c r ++ blanks t).
+    rewrite (all_blank_app _ _ (lnb_not_all_blank (String c r) ltac:(discriminate) H)).
+    f_equal. destruct r as [|d r']; [apply rstrip_all_blank, all_blank_blanks|]. now apply IH.
+Qed.
+
+Lemma wtext_facts w : wf_tok w = true ->
+  lnb (wtext w) = true /\ exists c t, wtext w = String c t /\ is_blank c = false.
+Proof.
+  intros Hw. destruct w as [neg plus ds sub|g2 ds|g2| | |]; cbn [wtext];
+    try (split; [reflexivity|eexists; eexists; split; reflexivity]).
+  - destruct (wlit_text_lit neg plus ds sub Hw) as [Hf Hne]. split.
+    + apply lnb_forall. apply (str_forall_impl lit_char); [|exact Hf]. intros c Hc.
+      destruct (lit_char_facts c Hc) as (Hb & _). now rewrite Hb.
+    + destruct (sign_text neg plus ++ ds ++ sub_text sub) as [|c t]; [congruence|]. exists c, t. split; [reflexivity|].
+      cbn in Hf. apply andb_prop in Hf. destruct Hf as [Hc _]. now destruct (lit_char_facts c Hc).
+  - cbn [wf_tok] in Hw. destruct (digits_ok_forall ds Hw) as [Fd Nd]. split.
+    + change (String "#" (blanks g2 ++ ds)) with (("#" ++ blanks g2) ++ ds). apply lnb_app_r; [exact Nd|].
+      apply lnb_forall. apply (str_forall_impl is_digit); [|exact Fd]. intros c Hc.
+      destruct (lit_char_facts c (digit_lit c Hc)) as (Hb & _). now rewrite Hb.
+    + eexists; eexists; split; reflexivity.
+  - split; [|eexists; eexists; split; reflexivity].
+    change (String "#" (blanks g2 ++ "(")) with (("#" ++ blanks g2) ++ "("). apply lnb_app_r; [discriminate|reflexivity].
+Qed.
+
+Lemma render_lnb ws : wf_written ws = true ->
+  lnb (render ws 0) = true /\ (ws <> [] -> render ws 0 <> "").
+Proof.
+  induction ws as [|[g w] r IH]; intros Hwf; [split; [reflexivity|congruence]|].
+  cbn [wf_written] in Hwf. apply andb_prop in Hwf. destruct Hwf as [Hwf Hr].
+  apply andb_prop in Hwf. destruct Hwf as [Hw _]. destruct (IH Hr) as [IH1 IH2].
+  destruct (wtext_facts w Hw) as (Hl & c & t & E & Hb).
+  assert (Hne : wtext w ++ render r 0 <> "") by (rewrite E; discriminate).
+  split; [|intros _; cbn [render]; destruct (blanks g); [exact Hne|discriminate]].
+  cbn [render]. apply lnb_app_r; [exact Hne|]. destruct r as [|p r'].
+  - cbn [render blanks]. now rewrite str_app_nil_r.
+  - apply lnb_app_r; [apply IH2; discriminate|exact IH1].
+Qed.
+
+Lemma strip_written g w r trail : wf_written ((g, w) :: r) = true ->
+  strip (render ((g, w) :: r) trail) = render ((0, w) :: r) 0.
+Proof.
+  intros Hwf. rewrite render_trail. unfold strip. cbn [render]. rewrite !str_app_assoc, skip_blanks_blanks.
+  assert (Hwf0 : wf_written ((0, w) :: r) = true) by exact Hwf.
+  destruct (render_lnb _ Hwf0) as [Hl _]. cbn [render blanks append] in Hl.
+  cbn [wf_written] in Hwf. apply andb_prop in Hwf. destruct Hwf as [Hwf _]. apply andb_prop in Hwf. destruct Hwf as [Hw _].
+  destruct (wtext_facts w Hw) as (_ & c & t & E & Hb).
+  assert (Hsk : skip_blanks (wtext w ++ render r 0 ++ blanks trail) = wtext w ++ render r 0 ++ blanks trail).
+  { rewrite E. cbn [append]. now apply skip_nb. }
+  rewrite Hsk. rewrite <- str_app_assoc. cbn [blanks append]. now apply rstrip_blanks.
+Qed.
+
+(* ================================================================== *)
+(* the normal form                                                     *)
+(* ================================================================== *)
+Definition starts_operand (a : atom) : bool :=
+  match a with ALit _ | ALP | ACell _ | ANot => true | _ => false end.
+Definition boundary (prev : option atom) (a : atom) : bool := opt_is ends_operand prev && starts_operand a.
+
+(* token texts with '*' exactly between the end of an operand and the start of one *)
+Fixpoint nfr (prev : option atom) (atoms : list atom) : string :=
+  match atoms with
+  | [] => ""
+  | a :: r => (if boundary prev a then "*" else "") ++ atext a ++ nfr (Some a) r
+  end.
+
+Definition normal_form (ws : written) : string := nfr None (map (fun p => watom (snd p)) ws).
+
+Definition F (p : option atom) (g : nat) (a : atom) : nat :=
+  f8 p (f7 p (f5 p (f4 p (f3 p g a) a) a) a) a.
+
+Definition is_lit (a : atom) : bool := match a with ALit _ => true | _ => false end.
+
+Fixpoint gaps_wf (prev : option atom) (its : items) : Prop :=
+  match its with
+  | [] => True
+  | (g, a) :: R =>
+      match a with
+      | ACell _ | ANot => 0 < g
+      | ALit _ => opt_is is_lit prev = true -> 0 < g
+      | _ => True
+      end /\ gaps_wf (Some a) R
+  end.
+
+Lemma sep_char p g a :
+  match a with
+  | ACell _ | ANot => 0 < g
+  | ALit _ => is_lit p = true -> 0 < g
+  | _ => True
+  end -> Nat.ltb 0 (F (Some p) g a) = boundary (Some p) a.
+Proof.
+  intros H. unfold F, f3, f4, f5, f7, f8, boundary.
+  destruct p, a; cbn in *; try reflexivity;
+    destruct g as [|g]; cbn; try reflexivity; try lia;
+    try (exfalso; specialize (H eq_refl); lia).
+Qed.
+
+Lemma final_items : forall its p, gaps_wf (Some p) its ->
+  srender (imap F (Some p) its) = nfr (Some p) (map snd its).
+Proof.
+  induction its as [|[g a] R IH]; intros p H; [reflexivity|].
+  cbn [gaps_wf] in H. destruct H as [Hg HR]. cbn [imap srender map snd nfr].
+  rewrite (sep_char p g a); [now rewrite (IH a HR)|].
+  destruct a; auto.
+Qed.
+
+Lemma all_ok_imap f : forall its prev, all_ok its -> all_ok (imap f prev its).
+Proof.
+  induction its as [|[g a] R IH]; intros prev H; [constructor|].
+  inversion H; subst. constructor; [assumption|now apply IH].
+Qed.
+
+Lemma conv_gaps : forall r g w, wf_written ((g, w) :: r) = true -> gaps_wf (Some (watom w)) (map conv r).
+Proof.
+  induction r as [|[g2 w2] r2 IH]; intros g w Hwf; [exact I|].
+  cbn [wf_written] in Hwf. apply andb_prop in Hwf. destruct Hwf as [Hwf Hr].
+  apply andb_prop in Hwf. destruct Hwf as [Hw Hsep].
+  cbn [map conv fst snd gaps_wf]. split; [|exact (IH g2 w2 Hr)].
+  destruct w2 as [neg2 plus2 ds2 sub2|h ds2|h| | |]; cbn [watom is_hash]; try lia; try exact I.
+  intros Hp. destruct w; cbn in Hp; try discriminate Hp.
+  apply negb_true_iff in Hsep. cbn [next_is_lit] in Hsep. destruct g2; [discriminate|lia].
+Qed.
+
+(* normalize2 on every writing of a non-empty token sequence *)
+Theorem normalize2_normal_form ws trail : wf_written ws = true -> ws <> [] ->
+  normalize2 (render ws trail) = normal_form ws.
+Proof.
+  intros Hwf Hne. destruct ws as [|[g w] r]; [congruence|].
+  assert (Hwf0 : wf_written ((0, w) :: r) = true) by exact Hwf.
+  rewrite normalize2_U, (strip_written g w r trail Hwf), render_with_wtext.
+  rewrite (pass1 _ Hwf0), (pass2 _ Hwf0), render2_items.
+  set (I0 := map conv ((0, w) :: r)).
+  assert (H0 : all_ok I0) by exact (conv_ok _ Hwf0).
+  pose proof (pass3 I0 None H0) as E3. cbn [opt_is] in E3. rewrite zh_false in E3. rewrite E3.
+  pose proof (all_ok_imap f3 I0 None H0) as H3.
+  pose proof (pass4 _ None H3) as E4. cbn [opt_is] in E4. rewrite zh_false in E4. rewrite E4.
+  pose proof (all_ok_imap f4 _ None H3) as H4.
+  rewrite (pass5 _ None H4). pose proof (all_ok_imap f5 _ None H4) as H5.
+  rewrite P7_is_Q7. pose proof (pass7 _ None H5) as E7. cbn [opt_is] in E7. rewrite E7.
+  pose proof (all_ok_imap f7 _ None H5) as H7.
+  rewrite (P8_Q8 _ _ (le_n _)). pose proof (pass8 _ None H7) as E8. unfold extra8 in E8. cbn [closes opt_is andb append] in E8.
+  rewrite E8. pose proof (all_ok_imap f8 _ None H7) as H8.
+  rewrite (strip_items _ H8).
+  rewrite !imap_imap. fold F.
+  assert (H9 : all_ok (zh true (imap F None I0))).
+  { rewrite !imap_imap in H8. fold F in H8. destruct (imap F None I0) as [|[g9 a9] R9]; [constructor|].
+    inversion H8; subst. constructor; assumption. }
+  rewrite (pass9 _ H9).
+  unfold I0. cbn [map conv fst snd imap zh srender Nat.ltb Nat.leb append].
+  unfold normal_form. cbn [map snd nfr boundary opt_is andb append]. f_equal.
+  rewrite (final_items (map conv r) (watom w) (conv_gaps r 0 w Hwf0)).
+  now rewrite map_map.
+Qed.
+
+(* consequence for the code-shaped model: on the layout family get_ast2 only
+   depends on the normal form, hence not on the blanks *)
+Theorem get_ast2_normal_form ws trail : wf_written ws = true -> ws <> [] ->
+  get_ast2 (render ws trail) = peg_start (normal_form ws).
+Proof. intros Hwf Hne. unfold get_ast2. now rewrite normalize2_normal_form. Qed.
+
+Theorem get_ast2_layout_invariant ws ws' trail trail' :
+  wf_written ws = true -> wf_written ws' = true -> ws <> [] ->
+  map (fun p => watom (snd p)) ws = map (fun p => watom (snd p)) ws' ->
+  get_ast2 (render ws trail) = get_ast2 (render ws' trail').
+Proof.
+  intros Hw Hw' Hne E. assert (Hne' : ws' <> []) by (destruct ws, ws'; try congruence; discriminate).
+  rewrite !get_ast2_normal_form by assumption. unfold normal_form. now rewrite E.
+Qed.
